@@ -41,6 +41,7 @@ def exact_dist(kind, xq, Lq, start, i):
     return sum(abs(m - xq[i]) for m in xq[start:i]) / ((i - start) * Lq)
 
 
+@core.safe_case
 def one(ctx, kind, xs, t, family):
     import kneeliverse.clustering as cl
     fn = {'single': cl.single_linkage, 'complete': cl.complete_linkage, 'centroid': cl.centroid_linkage, 'average': cl.average_linkage}[kind]
